@@ -15,11 +15,11 @@ suite=$(make -k check 2>&1 | grep -E "^# (FAIL|ERROR):" | awk '{s+=$3} END{print
 res="$res suite_fail_or_error=$suite"
 demo_with=NA; demo_without=NA
 run_demo() {
-  if [ -f $src/demo.sh ]; then (bash $src/demo.sh $wt >/dev/null 2>&1; echo $?)
+  if [ -f $src/demo.sh ]; then (bash $src/demo.sh ${DEMO_ARG_SRC:+$wt/src}${DEMO_ARG_SRC:-$wt} >/dev/null 2>&1; echo $?)
   elif [ -f $src/demo.cpp ]; then g++ -O0 $src/demo.cpp -I$wt/src -L$wt/src/.libs -lmasa -o /tmp/confirm_$label.demo 2>/dev/null && (cd /tmp && LD_LIBRARY_PATH=$wt/src/.libs timeout 300 /tmp/confirm_$label.demo >/dev/null 2>&1; echo $?)
   elif [ -f $src/demo.c ]; then gcc -O0 $src/demo.c -I$wt/src -L$wt/src/.libs -lmasa -lstdc++ -lm -o /tmp/confirm_$label.demo 2>/dev/null && (cd /tmp && LD_LIBRARY_PATH=$wt/src/.libs timeout 300 /tmp/confirm_$label.demo >/dev/null 2>&1; echo $?)
-  elif [ -f $src/demo.sh ]; then (bash $src/demo.sh $wt >/dev/null 2>&1; echo $?)
-  elif [ -f $src/demo.py ]; then (python3 $src/demo.py $wt >/dev/null 2>&1; echo $?)
+  elif [ -f $src/demo.sh ]; then (bash $src/demo.sh ${DEMO_ARG_SRC:+$wt/src}${DEMO_ARG_SRC:-$wt} >/dev/null 2>&1; echo $?)
+  elif [ -f $src/demo.py ]; then (python3 $src/demo.py $( [ -n "$DEMO_ARG_SRC" ] && echo $wt/src || echo $wt ) >/dev/null 2>&1; echo $?)
   else echo NODEMO; fi
 }
 if [ -f $src/run_demo.sh ]; then demo_with=$(bash $src/run_demo.sh $wt >/dev/null 2>&1; echo $?); else demo_with=$(run_demo); fi
